@@ -401,6 +401,23 @@ pub fn run(args: &Args) {
         eprintln!("tool error: {abandoned} of {total} behaviours abandoned (database is locked)");
         std::process::exit(2);
     }
+    let mut sh = sh;
+    if args.extra.get("sweep").map(|s| s == "1").unwrap_or(false) {
+        match publish_crash_sweep(kill, args.seed) {
+            Ok((findings, cuts, stored_after_cut)) => {
+                sh.out.count_by("sweep:publish-cut-points", cuts);
+                sh.out.count_by("sweep:cuts-with-operation-stored", stored_after_cut);
+                sh.out.mark_distinct(format!("publish-crash-sweep:{cuts}"));
+                for f in findings {
+                    sh.out.violation(f.property, &f.signature, f.detail.clone(), json!({"kind": "publish-crash-sweep", "detail": f.detail}));
+                }
+            }
+            Err(e) => {
+                eprintln!("tool error in publish crash sweep: {e}");
+                std::process::exit(2);
+            }
+        }
+    }
     eprintln!("[topicstream replay] {total} behaviours, crash mode = {}", if kill { "SIGKILL child" } else { "in-process drop" });
     sh.out.write(args);
 }
@@ -681,4 +698,100 @@ fn exploit_overlap(
         }
     }
     Ok(out)
+}
+
+/// Poll-count crash sweep of the FIRST publish of the node into the topic on a fresh database:
+/// for k = 1, 2, .. the publish future is polled k times, dropped, the incarnation crashes; the
+/// next incarnation opens the stream from the frontier. Whatever k: either nothing is stored, or the
+/// operation is stored AND its log is associated with the topic AND the replay delivers it
+/// (specification: ForgeCommit is one atomic step, invariant StoredImpliesAssociated, ReplayExact).
+fn publish_crash_sweep(kill: bool, seed: u64) -> Result<(Vec<Finding>, u64, u64), String> {
+    let ids = Ids::new();
+    let dir = db_dir(if kill { "sweep-kill" } else { "sweep-drop" });
+    let remote = build_remote_ops(&ids, &BTreeMap::new());
+    let mut findings = Vec::new();
+    let mut stored_after_cut = 0u64;
+    let mut k = 0u64;
+    loop {
+        k += 1;
+        if k > 200 {
+            return Err("publish did not complete within 200 polls".into());
+        }
+        let db = dir.join(format!("k{k}.sqlite"));
+        remove_db(&db);
+        let net: String = (0..32).map(|j| format!("{:02x}", (seed as usize + k as usize * 3 + j * 7 + std::process::id() as usize) & 0xff)).collect();
+        let cfg = json!({"db": db.to_string_lossy(), "remote": remote, "net": net, "control": false, "preobserve": true});
+        let open = json!({"act": "Open", "arg": {"p": "explicit", "from": "frontier", "c": {}}, "cfg": cfg});
+        let (mut h, _) = Host::start(kill, &open)?;
+        let r = h.exec(&json!({"act": "PollPublish", "arg": {"k": k}}));
+        h.crash();
+        let r = r?;
+        let done = r["done"].as_bool().unwrap_or(false);
+        // next incarnation
+        let (mut h2, first) = Host::start(kill, &open)?;
+        let drained = h2.exec(&json!({"act": "Drain"}));
+        h2.crash();
+        remove_db(&db);
+        let drained = drained?;
+        let pre = &first["pre"];
+        let stored = op_set(&pre["stored"]);
+        let assoc = assoc_set(&pre["assoc"]);
+        let replayed = op_set(&drained["replayed"]);
+        let unacked: BTreeSet<String> = pre["stored"]
+            .as_array()
+            .into_iter()
+            .flatten()
+            .filter(|o| o["tp"] == "t" && o["body"] == true)
+            .filter(|o| o["seq"].as_i64().unwrap_or(-1) > pre["cursor"][o["a"].as_str().unwrap_or("?")].as_i64().unwrap_or(-1))
+            .map(op_key)
+            .collect();
+        if !stored.is_empty() && !done {
+            stored_after_cut += 1;
+        }
+        for o in pre["stored"].as_array().into_iter().flatten() {
+            let key = format!("{}:{}", o["tp"].as_str().unwrap_or("?"), o["a"].as_str().unwrap_or("?"));
+            if !assoc.contains(&key) {
+                findings.push(Finding {
+                    property: "C15",
+                    signature: "c15-stored-operation-not-associated".into(),
+                    detail: format!(
+                        "publish dropped after {k} polls + crash: {} is stored but its log is not associated with the topic \
+                         (associations {assoc:?}); the specification's ForgeCommit is atomic (StoredImpliesAssociated)",
+                        op_key(o)
+                    ),
+                });
+            }
+        }
+        if replayed != unacked {
+            findings.push(Finding {
+                property: "C15",
+                signature: if unacked.difference(&replayed).next().is_some() {
+                    "c15-replay-misses-unacked".into()
+                } else {
+                    "c15-replay-redelivers-acked".into()
+                },
+                detail: format!(
+                    "publish dropped after {k} polls + crash: stream re-opened from the frontier delivered {replayed:?}; stored, with body \
+                     and not acknowledged are {unacked:?} (stored {stored:?}, associations {assoc:?})"
+                ),
+            });
+        }
+        if done {
+            if r["ok"] != true {
+                return Err(format!("publish failed: {}", r["error"]));
+            }
+            if !stored.contains("me/t/0/b") {
+                findings.push(Finding {
+                    property: "C15",
+                    signature: "c15-completed-publish-not-stored".into(),
+                    detail: format!("publish returned Ok after {k} polls, after the crash the store holds {stored:?}"),
+                });
+            }
+            break;
+        }
+        if !findings.is_empty() {
+            break; // one failing cut point is enough
+        }
+    }
+    Ok((findings, k, stored_after_cut))
 }
